@@ -1047,6 +1047,29 @@ func dedupStrings(in []string) []string {
 // pkgoDispatch: on every call path the site is reached for (a) a SelectorExpr or an Ident node, resolved with
 // TypesInfo.ObjectOf, (b) an object of the kind the code names: TypeName (PKGO01), Func without receiver
 // (PKGO02), Func with receiver (PKGO03). Both reference kinds must be present.
+// throughAsserts: some origin of v - looking through type assertions (x.(T) has the origin of x) - satisfies pred.
+func (c *Ctx) throughAsserts(v ssa.Value, depth int, pred func(ssa.Value) bool) bool {
+	if depth > 6 {
+		return false
+	}
+	for _, r := range c.P.ResolveDeep(v) {
+		if pred(r) {
+			return true
+		}
+		var ta *ssa.TypeAssert
+		switch x := r.(type) {
+		case *ssa.Extract:
+			ta, _ = x.Tuple.(*ssa.TypeAssert)
+		case *ssa.TypeAssert:
+			ta = x
+		}
+		if ta != nil && c.throughAsserts(ta.X, depth+1, pred) {
+			return true
+		}
+	}
+	return false
+}
+
 func (c *Ctx) pkgoDispatch(si *siteInfo, rule string) {
 	P := c.P
 	where := P.Pos(si.S.Alloc.Pos())
@@ -1055,6 +1078,7 @@ func (c *Ctx) pkgoDispatch(si *siteInfo, rule string) {
 	okAll := true
 	for _, path := range paths {
 		var nodeKind, objKind string
+		aliasResolved := false
 		recvNonNil, recvNilOrCompound := false, false
 		for _, l := range path {
 			if x, t, _ := typeAssertOK(l); x != nil && l.Pos {
@@ -1063,8 +1087,33 @@ func (c *Ctx) pkgoDispatch(si *siteInfo, rule string) {
 					nodeKind = strings.TrimPrefix(ts, "*go/ast.")
 				}
 				if ts == "*go/types.TypeName" || ts == "*go/types.Func" {
-					if P.RootsAllDeep(x, func(r ssa.Value) bool { return P.CallTo(r, "(*go/types.Info).ObjectOf") != nil }) {
+					// the object the identifier resolves to (ObjectOf / Uses), or - for a type alias - the defined
+					// type it names (Named.Obj() of the un-aliased type)
+					sawAliasRes := false
+					if P.RootsAllDeep(x, func(r ssa.Value) bool {
+						if P.CallTo(r, "(*go/types.Info).ObjectOf") != nil {
+							return true
+						}
+						if lk, ok := r.(*ssa.Lookup); ok && P.RootsAllDeep(lk.X, func(m ssa.Value) bool { return fieldLoad(m, "go/types.Info", "Uses") != nil }) {
+							return true
+						}
+						if ex, ok := r.(*ssa.Extract); ok {
+							if lk, ok := ex.Tuple.(*ssa.Lookup); ok && P.RootsAllDeep(lk.X, func(m ssa.Value) bool { return fieldLoad(m, "go/types.Info", "Uses") != nil }) {
+								return true
+							}
+						}
+						if oc := P.CallTo(r, "(*go/types.Named).Obj"); oc != nil {
+							if c.throughAsserts(oc.Call.Args[0], 0, func(q ssa.Value) bool { return P.CallTo(q, "go/types.Unalias") != nil }) {
+								sawAliasRes = true
+								return true
+							}
+						}
+						return false
+					}) {
 						objKind = strings.TrimPrefix(ts, "*go/types.")
+						if ts == "*go/types.TypeName" && sawAliasRes {
+							aliasResolved = true
+						}
 					}
 				}
 			}
@@ -1087,6 +1136,10 @@ func (c *Ctx) pkgoDispatch(si *siteInfo, rule string) {
 		ok := (nodeKind == "SelectorExpr" || nodeKind == "Ident") && objKind == want
 		if si.S.Code == "PKGO03" && !recvNonNil {
 			ok = false
+		}
+		if si.S.Code == "PKGO01" && ok && !aliasResolved {
+			okAll = false
+			c.fail(rule+"/ALIAS-RESOLVED", si.Name, where, "the type is looked up under the (package, name) of the identifier written at the use site: a restricted type used through `type A = T` is judged as A (C13)")
 		}
 		if si.S.Code == "PKGO02" && !recvNilOrCompound {
 			ok = false
